@@ -347,7 +347,7 @@ def alphabet(full):
                 ('classImplementsOnly', 1, 2), ('classImplementsOnly', 1, 0),
                 ('directlyProvides', 0, (0,)), ('directlyProvides', 1, (0,)), ('directlyProvides', 0, (1,)),
                 ('alsoProvides', 0, 1), ('alsoProvides', 1, 0), ('noLongerProvides', 0, 0), ('directlyProvides', 0, ()),
-                ('query',)]
+                ('directlyProvides', 0, (0, 2)), ('directlyProvides', 1, (0, 2)), ('query',)]
     else:
         ops += [('classImplements', 0, 0), ('classImplements', 0, 1), ('classImplements', 1, 0), ('classImplements', 1, 2),
                 ('classImplements', 4, 2), ('classImplementsOnly', 0, 2), ('classImplementsOnly', 1, 0),
@@ -405,10 +405,10 @@ HARNESSES = [
             oracle='non-deterministic set model from the statement (declared/inherit per class, direct per object; a declaration implied at the '
                    'moment it is made may be kept or dropped); every observation must be consistent with one admissible state'),
     Harness('e_decl_narrowing', make_e, kind='E', impls=('py', 'c'),
-            tiers=dict(quick=dict(budget_s=150, parts=13, params=dict(L=4, full='narrowing'), impls=('py',)),
-                       thorough=dict(budget_s=2400, parts=13, params=dict(L=5, full='narrowing'))),
+            tiers=dict(quick=dict(budget_s=150, parts=15, params=dict(L=4, full='narrowing'), impls=('py',)),
+                       thorough=dict(budget_s=2400, parts=15, params=dict(L=5, full='narrowing'))),
             encoded=_ENC,
-            bounds=_B + 'every history of <=4 (thorough 5, both builds) ops from a 13-op alphabet that interleaves instance declarations on two '
+            bounds=_B + 'every history of <=4 (thorough 5, both builds) ops from a 15-op alphabet that interleaves instance declarations on two '
                         'instances of one class with widening and narrowing (classImplementsOnly) of that class and of its base',
             oracle='as e_decl_reduced'),
     Harness('e_decl_full', make_e, kind='E', impls=('py', 'c'),
